@@ -17,7 +17,7 @@ from vf.props import c09 as mount_gen
 PROPERTY = "C04"
 LEVEL = "exploration"
 SHARDS = {"quick": 4, "thorough": 16}
-REQUIRED = ["request-view-pairs", "response-recipe-pairs", "shortcut-pairs", "routing-pairs", "static-pairs"]
+REQUIRED = ["request-view-pairs", "response-recipe-pairs", "reused-object-pairs", "shortcut-pairs", "routing-pairs", "static-pairs"]
 RULE = ("Pairs (WSGI run, ASGI run) of the same abstract case. Request views: generated requests (methods, UTF-8 paths incl. non-ASCII, root paths, queries, header sets "
         "with Cookie / Accept / Content-Type+charset / Content-Length / Date / Referer / Host, JSON / urlencoded / multipart / raw bodies in several chunkings) -> 17 view "
         "fields each compared as value-or-exception-class. Responses: generated recipes of every response class x GET/HEAD x Range for files. Shortcuts: request_response, "
@@ -382,6 +382,17 @@ def check_static(ctx, rng, apps, validators):
     return (kind, path, method, repr(hdrs))
 
 
+def check_reused(ctx, rec, reqs):
+    from baize import asgi, wsgi
+    objs = {"wsgi": recipes.response_from(wsgi, rec), "asgi": recipes.response_from(asgi, rec)}
+    for n, (method, headers) in enumerate(reqs):
+        req = drivers.Req(method=method, headers=headers)
+        w, a = observe("wsgi", objs["wsgi"], req), observe("asgi", objs["asgi"], req)
+        ctx.mon("reused-object-pairs")
+        if n:
+            compare(ctx, "response-recipe", {"recipe": rec, "requests_to_one_object": reqs[:n + 1]}, w, a)
+
+
 def run(ctx):
     from baize import asgi, wsgi
     contracts.arm_list_headers()
@@ -404,7 +415,16 @@ def run(ctx):
             hdrs.append(("If-Range", rng.choice(['"nope"', "", "Wed, 21 Oct 2015 07:28:00 GMT"])))
         method = rng.choice(["GET", "GET", "HEAD"])
         wrapper = rng.choice(["direct", "direct", "view", "decorator", "middleware", "decorator+middleware"])
+        if rec["cls"] in ("PlainText", "HTML") and isinstance(rec["content"], bytes) and rng.random() < 0.5:
+            rec["content_as"] = rng.choice(["bytearray", "memoryview"])  # other bytes-like objects as content
         check_recipe(ctx, rec, method, hdrs, wrapper)
+        if rec["cls"] in ("Response", "PlainText", "HTML", "JSON", "Redirect", "File") and not rec.get("raise_at") and rng.random() < 0.5:
+            # one response OBJECT answering several requests in a row: the later answers must agree as well
+            reqs = [(method, hdrs)]
+            for _ in range(rng.randrange(1, 3)):
+                rh2 = rng.choice(recipes.RANGE_HEADERS + ["bytes=0-0", None, None]) if rec["cls"] == "File" else None
+                reqs.append((rng.choice(["GET", "GET", "HEAD"]), [("Range", rh2)] if rh2 is not None else []))
+            check_reused(ctx, rec, reqs)
         ctx.case(repr((rec, method, hdrs, wrapper)))
         ctx.sample("recipe-" + wrapper, {"recipe": rec, "method": method, "headers": hdrs}, cap=1)
     # ---- routing
@@ -444,7 +464,10 @@ def replay(ctx, case):
         if rec.get("cls") == "File" and not os.path.exists(rec["path"]):
             files = recipes.make_files(ctx.tmpdir("files"))
             rec["path"] = [f for f in files if os.path.basename(f) == os.path.basename(rec["path"])][0]
-        check_recipe(ctx, rec, case["method"], [tuple(h) for h in case["headers"]], case.get("wrapper", "direct"))
+        if "requests_to_one_object" in case:
+            check_reused(ctx, rec, [(m, [tuple(h) for h in hs]) for m, hs in case["requests_to_one_object"]])
+        else:
+            check_recipe(ctx, rec, case["method"], [tuple(h) for h in case["headers"]], case.get("wrapper", "direct"))
     else:
         print("routing / static cases: re-run the tier with the recorded VERIF_SEED (tables are generated)")
     ctx.case(1)
